@@ -45,8 +45,8 @@ CHECKS = {
   note="Trusted: SimGit (validated against the real git binary on a sample in every run, 50 scenarios in the thorough tier). Outside the domain, never flagged: hidden names, glob metacharacters, symlinks, unreadable directories."),
  "C16": dict(
   engine="cli-sim", category="exploration", design_ref="DESIGN.md 4.16",
-  technique="deterministic simulation over the run configuration: the full 144-vector option lattice per sampled file and the input channel (disk read through the open seam vs argv); oracle relative to the reference vector run alone",
-  text="For each sampled workload file (all classes, both file types) all 144 option vectors {--no-colors} x {-f json|humanized} x {-o} x {none,-d,-dd} x {none,-R <word>,-R CheckDefine} x {disk, --cfile/--hfile --filename} are executed through the real main(), each in its own forked child; the structural report (formatter object captured at the print seam, so debug chatter cannot be confused with it) must equal the reference vector's: same verdict and (level, code, line, column, text). -R CheckDefine: diagnostics are a sub-multiset of the reference, the removed ones emitted by the #define-value check (measured from which check class called Errors.add) on #define lines.",
+  technique="deterministic simulation over the run configuration: the full 216-vector option lattice per sampled file and the input channel (disk read through the open seam vs argv); oracle relative to the reference vector run alone",
+  text="For each sampled workload file (all classes, both file types) all 216 option vectors {--no-colors} x {-f json|humanized} x {-o} x {none,-d,-dd} x {none,-R <word>,-R CheckDefine} x {disk, inline with the matching flag, inline with the other flag + --filename} are executed through the real main(), each in its own forked child; the report as printed (the print of the formatter object is captured at the print seam, so debug chatter cannot be confused with it, and its text is parsed in the requested format) must equal the reference vector's: same verdict and (level, code, line, column, text). -R CheckDefine: diagnostics are a sub-multiset of the reference, the removed ones emitted by the #define-value check (measured from which check class called Errors.add) on #define lines.",
   note="Option lattice exhaustive per file; files sampled. Domain: contents without CR/NUL. Runs that reach no verdict under one of the two vectors are excluded from (a), as the statement says."),
  "C06": dict(
   engine="history-sim", category="exploration", design_ref="DESIGN.md 4.6",
